@@ -1,0 +1,74 @@
+//go:build verif
+
+package skiplist
+
+import (
+	"sync/atomic"
+	"unsafe"
+)
+
+// Yield points used by the verification harness (build tag verif).
+const (
+	vpAcqLoad = iota + 1
+	vpAcqAdd
+	vpRelDec
+	vpRelClosed
+	vpRelInsert
+	vpRelTryLock
+	vpClRead
+	vpClProc
+	vpRelUnlock
+	vpRelRecheck
+	vpFlLock
+	vpFlSwap
+	vpFlTag
+	vpFlAdd
+	vpFlUnlock
+)
+
+const (
+	vpFindLevel = iota + 20
+	vpFindNext
+	vpHelpDelete
+	vpInsPublish
+	vpInsUpRead
+	vpInsUpLink
+	vpSoftMark
+	vpDelSearch
+	vpNewLevel
+	vpIterNext
+	vpIterRefresh
+)
+
+// VerifHook is called before every instrumented shared-memory step.
+var VerifHook func(point int, obj unsafe.Pointer)
+
+func verifYield(point int, obj unsafe.Pointer) {
+	if h := VerifHook; h != nil {
+		h(point, obj)
+	}
+}
+
+// VerifNext exposes the successor and delete mark of a node at a level.
+func VerifNext(n *Node, level int) (*Node, bool) { return n.getNext(level) }
+
+// VerifLevel exposes the current top level of the skiplist.
+func (s *Skiplist) VerifLevel() int { return int(atomic.LoadInt32(&s.level)) }
+
+// VerifFreeq exposes the barrier's queue of terminated sessions.
+func (ab *AccessBarrier) VerifFreeq() *Skiplist { return ab.freeq }
+
+// VerifBarrierState exposes the barrier counters.
+func (ab *AccessBarrier) VerifBarrierState() (activeSeqno, freeSeqno uint64, destructorRunning int32) {
+	return ab.activeSeqno, atomic.LoadUint64(&ab.freeSeqno), atomic.LoadInt32(&ab.isDestructorRunning)
+}
+
+// VerifSession exposes the fields of a barrier session.
+func (bs *BarrierSession) VerifSession() (liveCount int32, seqno uint64, closed int32) {
+	return atomic.LoadInt32(bs.liveCount), bs.seqno, atomic.LoadInt32(&bs.closed)
+}
+
+// VerifRawStats exposes the raw statistics counters of a skiplist.
+func (s *Skiplist) VerifRawStats() (levelNodes [MaxLevel + 1]int64, softDeletes, nodeAllocs, nodeFrees, usedBytes int64) {
+	return s.Stats.levelNodesCount, s.Stats.softDeletes, s.Stats.nodeAllocs, s.Stats.nodeFrees, s.Stats.usedBytes
+}
